@@ -16,7 +16,7 @@ Lemma bring_fold_keep nm topd : forall l x x2,
 Proof.
   induction l as [|c l IH]; intros x x2 E; cbn [xfold] in E; [injection E as <-; apply keep_refl|].
   destruct (bring_to_top x c nm topd) as [xa [er|]] eqn:Eb; [discriminate E|].
-  destruct (bring_to_top_eff _ _ _ _ _ Eb) as [a [p [_ B]]].
+  destruct (bring_to_top_eff _ _ _ _ _ Eb) as [p B].
   apply (keep_trans _ _ _ (br_keep _ _ _ _ _ _ B) (IH _ _ E)).
 Qed.
 
@@ -235,7 +235,7 @@ Section Conn.
       destruct (is_leaf_def (st x1) d) eqn:Hl1.
       + destruct (W_step_leaf s0 t topd U0 Hu Ht _ _ _ _ _ _ _ _ Wx Eb Hr1 Hl1) as [Wn [Hh [K1 _]]].
         apply (IH x1 rest (inst :: done) rem x' rem' Wn (CI_step_leaf x x1 done inst Cx K1 Hh) E0).
-      + destruct (xfold (fun x c => bring_to_top x c (get_str (st x1) inst str_NAME) topd) (kids (st x1) RCables d) x1) as [x2 [er|]] eqn:Ec; [discriminate E0|].
+      + destruct (xfold (fun x c => bring_to_top x c (Some (name_in_path (st x1) inst)) topd) (kids (st x1) RCables d) x1) as [x2 [er|]] eqn:Ec; [discriminate E0|].
         destruct (xfold (fun x p => xfold (fun x i => redo_pin x inst i) (kids (st x) RPins p) x) (kids (st x2) RPorts d) x2) as [x3 [er|]] eqn:Er; [discriminate E0|].
         destruct (W_step_hier s0 t topd U0 Hu Ht _ _ _ _ _ _ _ _ _ _ Wx Eb Hr1 Hl1 Ec Er) as [Wn [Hb [_ [Hr [Hl0 [K1 [U2 [S2 _]]]]]]]].
         apply (IH x3 _ (inst :: done) (rem ++ [inst]) x' rem' Wn); [|exact E0].
@@ -256,7 +256,7 @@ Theorem flatten_conn fuel x n x' t topd :
   (forall p, pin_wire (st x) p = None -> pin_wire (st x') p = None).
 Proof.
   intros U0 Hu Htop Ht E0. unfold flatten in E0. rewrite Htop, Ht in E0.
-  destruct (flat_loop fuel x topd (map (fun c => (c, Some [])) (kids (st x) RChildren topd)) []) as [[x1 [er|]] rem] eqn:El; [discriminate E0|].
+  destruct (flat_loop fuel x topd (map (fun c => (c, None)) (kids (st x) RChildren topd)) []) as [[x1 [er|]] rem] eqn:El; [discriminate E0|].
   destruct (flat_loop_WC (st x) t topd U0 Hu Ht fuel x _ [] [] x1 rem (W_init (st x) t topd U0 Hu Ht x eq_refl) (CI_init (st x) t) El) as [done [Wd Cd]].
   destruct (remove_fold_eff topd rem x1 x' E0) as [K _].
   pose proof (CI_pw (st x) t (st x1) (st x') done (pw_keep _ _ K) Cd) as [A B C].
